@@ -123,7 +123,9 @@ func (c *WarmUpTrafficShapingCalculator) coolDownTokens(currentTime uint64, pass
 
 	// Prerequisites for adding a token:
 	// When token consumption is much lower than the warning line
-	if oldValue < int64(c.warningToken) {
+	// at or below the warning line the bucket refills at the full rate (with a strict comparison a
+	// bucket standing exactly on the line never cooled down again, however long the resource was idle)
+	if oldValue <= int64(c.warningToken) {
 		newValue = int64(float64(oldValue) + (float64(currentTime)-float64(atomic.LoadUint64(&c.lastFilledTime)))*c.threshold/1000.0)
 	} else if oldValue > int64(c.warningToken) {
 		if passQps < float64(uint32(c.threshold)/c.coldFactor) {
